@@ -52,6 +52,26 @@ def bulkRefill (r : PyOut) : IterOut × BulkIter :=
   | .raise e => (.raise e, ⟨[]⟩)
   | .panic _ => (.panic, ⟨[]⟩)
 
+/-- one `next()` on a `GetBulkIter`: serve from the buffer, else call the socket (`script` = the outcomes of the
+successive socket calls; running out of script is the driver's problem, reported as `Other`) -/
+def bulkNext (b : BulkIter) (script : List PyOut) : IterOut × BulkIter × List PyOut :=
+  if !b.buffer.isEmpty then
+    let (o, b') := popOrStop b
+    (o, b', script)
+  else
+    match script with
+    | [] => (.raise .Other, b, [])
+    | r :: rest =>
+      let (o, b') := bulkRefill r
+      (o, b', rest)
+
+/-- `n` successive `next()` calls -/
+def bulkRun : Nat → BulkIter → List PyOut → List IterOut
+  | 0, _, _ => []
+  | n + 1, b, script =>
+    let (o, b', script') := bulkNext b script
+    o :: bulkRun n b' script'
+
 /-- `fetch()`: GetBulk only when bulk is allowed; `allow_bulk` is forced off for v1 -/
 def allowBulk (isV1 : Bool) (allowBulkArg : Bool) : Bool := if isV1 then false else allowBulkArg
 
